@@ -412,8 +412,12 @@ class TaggedUnionConverter(UnionConverter):
         tag = getattr(val, self.tag)
         inner_conv = self.converters[self.tag_map[tag]]
         if self.external is False:
-            # internally tagged
-            return inner_conv.into_data(val)
+            # internally tagged. The tag is read under `self.tag`: write it there, whatever
+            # name the variant writes the tag field under (renamed, excluded)
+            data = inner_conv.into_data(val)
+            if data_is_mapping(data) and self.tag not in data:
+                data = {self.tag: tag, **t.cast(t.Mapping[t.Any, t.Any], data)}
+            return data
         if self.external is True:
             # externally tagged
             return {tag: inner_conv.into_data(val)}
